@@ -9,6 +9,7 @@ import RV.Base.Proto
     bgp s p o s p o …             -> ok     the current basic graph pattern
     init v t                      -> ok     initBindings {?v: t}
     noinit                        -> ok     no initBindings
+    abs b1,b2,… r1,r2,…           -> iri …  `Prologue.absolutize` of the reference r under BASE b (code points, `-` = empty)
     store mem|simple|aud|agg      -> ok     which store model answers `triples`
     eval given                    -> rows … evalBGP in the written order
     eval perm i,j,…               -> rows … evalBGP in that order
@@ -289,6 +290,12 @@ def step (s : St) : List String → St × String
   | ["init", v, t] =>
     match var? s.n v, t.toNat? with
     | some v, some t => ({ s with init := s.init.set v t }, "ok")
+    | _, _ => (s, "bad-op")
+  | ["abs", b, r] =>
+    match nats? b, nats? r with
+    | some b, some r =>
+      let out := Iri.absolutize b r
+      (s, "iri " ++ (if out.isEmpty then "-" else ",".intercalate (out.map toString)))
     | _, _ => (s, "bad-op")
   | ["noinit"] => ({ s with init := Row.empty }, "ok")
   | ["store", w] =>
